@@ -3,10 +3,11 @@ unit in the intern table must report the product of its factors' dimensions."""
 from .common import namespace, pools, seed_rng, shape_zoo
 
 CHECK = '''
-def c01_violations():
-    import measured
+def c01_violations(since=0):
+    """since: only the units interned after the first `since` ones (the table is insertion ordered and only grows)"""
+    import measured, itertools
     bad = []
-    for u in list(measured.Unit._known.values()):
+    for u in list(itertools.islice(measured.Unit._known.values(), since, None)):
         d = measured.Number
         for b, e in u.factors.items():
             d = d * (b.dimension ** e) if b is not u else d * u.dimension
@@ -42,7 +43,9 @@ def gen_step(rng, units, prefixes, nvars):
         if r < 0.85:
             return compound(rng, units, prefixes)
         return rng.choice(units)
-    k = rng.choice(["mul", "div", "pow", "root", "root", "ratio", "ratio", "fmt", "fmt", "str", "html", "parse", "json", "pickle", "mulq", "conv", "pretty"])
+    k = rng.choice(["mul", "div", "pow", "root", "root", "ratio", "ratio", "fmt", "fmt", "str", "html", "parse", "json", "pickle", "mulq", "conv", "pretty",
+                    "scaled-left", "scaled-right", "negroot"])
+    pu = rng.choice(units)
     a, b = operand(), operand()
     n = rng.choice([-3, -2, -1, 2, 3])
     return {
@@ -57,6 +60,10 @@ def gen_step(rng, units, prefixes, nvars):
         "mulq": "((2 * %s) * (3 * %s)).unit" % (a, b),
         "conv": "_eff(_try(lambda: (1 * %s).in_unit(%s), None), %s)" % (a, b, a),
         "pretty": "_eff(_pretty(%s), %s)" % (a, a),
+        # a prefixed dimensionless unit (what is left of (p*u)/u) times a unit, on either side: the product may be a never-seen unit
+        "scaled-left": "((%s*%s) / %s) * %s" % (rng.choice(prefixes), pu, pu, a),
+        "scaled-right": "%s * ((%s*%s) / %s)" % (a, rng.choice(prefixes), pu, pu),
+        "negroot": "_try(lambda: ((%s)**%d).root(%d), %s)" % (a, -abs(n), -abs(n), a),
     }[k]
 
 
@@ -96,6 +103,8 @@ def run(tier, seed):
         failures.append({"key": "import:%s" % u, "desc": "after import: %s has dimension %s, factors give %s" % (u, got, want),
                          "steps": []})
     hist = []
+    import measured as _m0
+    checked = len(_m0.Unit._known)
     while evals < steps_total and len(failures) < 3:
         nv = len(hist)
         src = gen_step(rng, units, prefixes, nv)
@@ -112,7 +121,12 @@ def run(tier, seed):
         hist.append(src)
         evals += 1
         distinct.add(src.split("(")[0][:20] + str(val))
-        bad = c01_violations()
+        # every step: the units interned by this step; every 40th step and at the end: the whole table (a later operation
+        # must not change what an earlier unit reports)
+        import measured as _m
+        full = evals % 40 == 0 or evals >= steps_total
+        bad = c01_violations(0 if full else checked)
+        checked = len(_m.Unit._known)
         if bad:
             u, got, want = bad[0]
             failures.append({"key": "history:%s" % u, "desc": "%s has dimension %s but its factors give %s" % (u, got, want),
@@ -124,6 +138,9 @@ def run(tier, seed):
                 del ns[k]
         if len(samples) < 5:
             samples.append(src)
+    if not failures:
+        for u, got, want in c01_violations()[:1]:
+            failures.append({"key": "history:%s" % u, "desc": "%s has dimension %s but its factors give %s" % (u, got, want), "steps": list(hist)})
     return {"evaluations": evals, "distinct": len(distinct), "failures": failures, "samples": samples,
             "rule": "random histories (<=25 steps each, one growing intern table) of * / ** root as_ratio format str mathml parse json pickle "
                     "quantity-mul convert over %d named units x %d prefixes; distinct = distinct (operation, resulting unit)" % (len(units), len(prefixes)),
